@@ -1,5 +1,6 @@
 """C02 - applying a legal move yields the correct successor position."""
 from analysis.runner import rule
+from analysis.effects import acnorm
 from analysis.facts import AnchorError
 from analysis import terms as T, k2, makemove as M
 from analysis import chessref as R
@@ -39,7 +40,7 @@ def r1(ctx):
     # bit of (side, colour) from castle_rights::offset = side + 2*colour, read from its K4 term
     eng = T.Engine(P)
     lv = eng.tabulate(CR + "offset")
-    side, color = ("param", 0, "side"), ("param", 1, "color")
+    side, color = ("param", 0, "a0"), ("param", 1, "a1")
     want_off = eng.binop("Add", ("cast", "u32", ("discr", side)), eng.binop("Mul", ("cast", "u32", ("discr", color)), T.I(2, "u32")))
     ctx.ob("offset formula", len(lv) == 1 and lv[0].ret == want_off, f"castle_rights::offset is {[T.show(l.ret) for l in lv]}, expected side + 2*colour", sample=T.show(want_off))
     bit = lambda s, c: 1 << (g.side[s] + 2 * g.color[c])
@@ -56,13 +57,15 @@ def r1(ctx):
     ctx.bulk("CASTLE_RIGHTS_PER_SQ", 128, bad, "castling-right mask differs from its definition", sample={"a1/White": bin(raw[64 * g.color[0] + g.sq[(0, 0)]] & 0xF)})
     # remove_for_sq applies exactly that mask
     lv = eng.tabulate(CR + "CastleRights::remove_for_sq")
-    slf = ("param", 0, "self")
+    rb = P.body(CR + "CastleRights::remove_for_sq")
+    prm = [("param", i, rb["locals"][i + 1].get("n", f"arg{i}")) for i in range(rb["argc"])]
+    slf = prm[0]
     ok = False
-    if len(lv) == 1:
+    if len(lv) == 1 and len(prm) == 3:
         v = eng.freeze(lv[0].state, lv[0].ext.get(slf, ("obj", slf)))
         new = T.get_path(v, (("f", 0, "0", None),))
-        tab = ("field", ("index", ("index", ("obj", ("static", key)), ("cast", "usize", ("discr", ("param", 1, "turn")))), ("cast", "usize", ("discr", ("param", 2, "end")))), "0")
-        ok = new == eng.binop("BitAnd", ("field", ("obj", slf), "0"), tab)
+        tab = ("field", ("index", ("index", ("obj", ("static", key)), ("cast", "usize", ("discr", prm[1]))), ("cast", "usize", ("discr", prm[2]))), "0")
+        ok = acnorm(new) == acnorm(eng.binop("BitAnd", ("field", ("obj", slf), "0"), tab))
     ctx.ob("remove_for_sq", ok, "remove_for_sq does not compute rights &= CASTLE_RIGHTS_PER_SQ[colour][square]", site=P.body(CR + "CastleRights::remove_for_sq").get("def_span"),
            sample="self.0 &= TABLE[turn][end].0")
 
@@ -82,11 +85,11 @@ def describe_color(t, p):
 def describe_piece(t):
     if t[0] == "adt" and t[1] == PIECE:
         return t[2]
-    if t[0] == "app" and t[1].endswith("piece_of_unchecked") and t[2][1] == ("field", ("param", 1, "mv"), "source"):
+    if t[0] == "app" and t[1].endswith("piece_of_unchecked") and t[2][1] == ("field", ("param", 1, "a1"), "source"):
         return "moved"
-    if t[0] == "vfield" and t[2] == "Some" and t[1][0] == "app" and t[1][1].endswith("RawBoard::piece_of") and t[1][2][1] == ("field", ("param", 1, "mv"), "dest"):
+    if t[0] == "vfield" and t[2] == "Some" and t[1][0] == "app" and t[1][1].endswith("RawBoard::piece_of") and t[1][2][1] == ("field", ("param", 1, "a1"), "dest"):
         return "captured"
-    if t[0] == "app" and t[1].endswith("to_piece") and t[2][0] == ("vfield", ("field", ("param", 1, "mv"), "piece"), "Some", 0):
+    if t[0] == "app" and t[1].endswith("to_piece") and t[2][0] == ("vfield", ("field", ("param", 1, "a1"), "piece"), "Some", 0):
         return "promoted"
     return "?" + T.show(t)[:60]
 
@@ -96,7 +99,7 @@ def bit_of(sq_term):
 
 
 def describe_diff(t, p, eng):
-    mv = ("param", 1, "mv")
+    mv = ("param", 1, "a1")
     src, dst = ("field", mv, "source"), ("field", mv, "dest")
     w = t[3][0] if t[0] == "adt" else t
     if w == eng.binop("BitXor", bit_of(src), bit_of(dst)):
@@ -170,7 +173,7 @@ def r2(ctx):
                 got.append((describe_color(a[1], p), describe_piece(a[2]), describe_diff(a[3], p, eng)))
             else:
                 sq = a[2]
-                rights.append((describe_color(a[1], p), "dest" if sq == ("field", ("param", 1, "mv"), "dest") else "source" if sq == ("field", ("param", 1, "mv"), "source") else "?"))
+                rights.append((describe_color(a[1], p), "dest" if sq == ("field", ("param", 1, "a1"), "dest") else "source" if sq == ("field", ("param", 1, "a1"), "source") else "?"))
         label = f"{me} {kind} cap={p.captured} promo={p.promo} double={double} ep={p.ep} castles={castles}/{p.side}"
         key = f"toggles[{label}]#{n}"
         ctx.ob(key, sorted(map(str, got)) == sorted(map(str, exp)), f"make-move ({label}) toggles {got}; the rules prescribe {exp}", site=site,
@@ -214,7 +217,7 @@ def r3(ctx):
         ctx.ob(f"full-move number[{label}]#{n}", ok, f"make-move by {me} changes the full-move number to {T.show(fm)[:80]}; expected old + {inc}", site=site)
         ep = M.field_at_loop(p, "enpassant_target")
         if kind == "Pawn" and p.promo == "None" and double:
-            fc = [v for t, v in getattr(p, "other", []) if t[0] == "discr" and t[1][0] == "app" and t[1][1].endswith("Pos::file") and t[1][2][0] == ("field", ("param", 1, "mv"), "dest")]
+            fc = [v for t, v in getattr(p, "other", []) if t[0] == "discr" and t[1][0] == "app" and t[1][1].endswith("Pos::file") and t[1][2][0] == ("field", ("param", 1, "a1"), "dest")]
             ok = ep[0] == "adt" and ep[1] == MG + "OptionalFile" and len(fc) == 1 and ep[2] == fc[0]
             want = f"file of the destination ({fc})"
         else:
@@ -250,14 +253,14 @@ def r6(ctx):
                 continue
             (t, v), = conds
             a = t[2]
-            same = a[0] in (("refv", ("obj", ("param", 0, "self"))), ("param", 0, "self")) and a[1] == ("param", 1, "mv")
+            same = a[0] in (("refv", ("obj", ("param", 0, "self"))), ("param", 0, "self")) and a[1] == ("param", 1, "a1")
             calls = [c for c in lf.trace if c[0] == "call"]
             if v == 1:
                 n_acc += 1
-                ok_call = len(calls) == 1 and calls[0][2][1] == ("param", 1, "mv")
+                ok_call = len(calls) == 1 and calls[0][2][1] == ("param", 1, "a1")
                 gate_ok &= same and ok_call
             else:
-                stores = [b for b in lf.ext if b in (("param", 0, "self"), ("param", 2, "output"))]
+                stores = [b for b in lf.ext if b in (("param", 0, "self"), ("param", 2, "a2"))]
                 refuse_ok &= same and not calls and not stores and lf.ret == refusal
         ctx.ob(f"{fn} gate", gate_ok and n_acc == 1, f"{fn}: the unchecked operation is not called exactly under is_legal(mv) == true of the same board and move", site=body.get("def_span"),
                sample={"paths": len(leaves)})
